@@ -115,6 +115,7 @@ func (ch *Channel) run() {
 
 	var err error
 
+	verifPoint("run.select", ch)
 	select {
 	case err = <-readerDone:
 		ch.rwc.Close()
@@ -132,23 +133,28 @@ func (ch *Channel) run() {
 
 	ch.ctxCancel()
 
+	verifPoint("run.pushClose", ch)
 	ch.node.pushEvent(&EventChannelClose{
 		Channel: ch,
 		Error:   err,
 	})
+	verifPoint("run.closeChannel", ch)
 	ch.node.closeChannel(ch)
 }
 
 func (ch *Channel) runReader() error {
 	// wait client here, in order to allow the writer goroutine to start
 	// and allow clients to write messages before starting listening to events
+	verifPoint("rd.pushOpen", ch)
 	ch.node.pushEvent(&EventChannelOpen{ch})
 
 	for {
+		verifPoint("rd.read", ch)
 		fr, err := ch.frameWriter.Read()
 		if err != nil {
 			var eerr frame.ReadError
 			if errors.As(err, &eerr) {
+				verifPoint("rd.pushEvent", ch)
 				ch.node.pushEvent(&EventParseError{err, ch})
 				continue
 			}
@@ -161,14 +167,17 @@ func (ch *Channel) runReader() error {
 			ch.node.nodeStreamRequest.onEventFrame(evt)
 		}
 
+		verifPoint("rd.pushEvent", ch)
 		ch.node.pushEvent(evt)
 	}
 }
 
 func (ch *Channel) runWriter(writerTerminate chan struct{}) error {
 	for {
+		verifPoint("wr.select", ch)
 		select {
 		case what := <-ch.chWrite:
+			verifPoint("wr.write", ch)
 			switch wh := what.(type) {
 			case message.Message:
 				err := ch.streamWriter.Write(wh)
@@ -200,6 +209,7 @@ func (ch *Channel) Endpoint() Endpoint {
 }
 
 func (ch *Channel) write(what interface{}) {
+	verifPoint("enq", ch)
 	select {
 	case ch.chWrite <- what:
 	case <-ch.ctx.Done():
